@@ -11,7 +11,13 @@ Ev == Tr[l]
 Is(e) == l <= Len(Tr) /\ Tr[l].ev = e /\ l' = l + 1
 Check(name, c) == c \/ (PrintT(<<"REJECT", tid, l, name>>) /\ FALSE)
 All(t) == \A i \in DOMAIN t : t[i]
-Verdict == IF tid > 0 /\ status = "ok" THEN PrintT(<<"ACCEPT", tid>>) ELSE TRUE
+\* a trace is complete when the run crashed or every step of the run was observed (the observations are numbered by their step)
+Complete == \/ Tr[l - 1].ev = "crash"
+            \/ (Tr[l - 1].ev = "obs" /\ Tr[l - 1].step = S.nexp - 1)
+            \/ (Tr[l - 1].ev = "setup" /\ S.nexp <= S.late)
+Verdict == IF tid = 0 THEN TRUE
+           ELSE IF ~Complete THEN PrintT(<<"REJECT", tid, l, "trace.incomplete">>)
+           ELSE IF status = "ok" THEN PrintT(<<"ACCEPT", tid>>) ELSE TRUE
 Mark(ok) == status' = IF ok THEN status ELSE "rej"
 
 G == S.grid
@@ -59,6 +65,7 @@ Obs == /\ Is("obs")
        /\ LET e == Ev IN
           IF status # "ok" THEN UNCHANGED status ELSE
           Mark(All(<<Check("obs.lattice", ~e.off),
+                     Check("obs.every_step", IF Tr[l - 1].ev = "obs" THEN e.step = Tr[l - 1].step + 1 ELSE e.step = S.late),
                      Check("obs.len", Len(e.u0) = Len(e.x) /\ Len(e.uvar) = Len(e.x)),
                      Check("obs.u.frac0", \A pn \in P(e) : ValOK(e, pn, e.u0[pn], 2 * e.step, 0)),
                      Check("obs.v.frac0", \A pn \in P(e) : ValOK(e, pn, e.v0[pn], 2 * e.step, 1)),
